@@ -301,6 +301,23 @@ pub fn make_provides_set(provides_set: &mut HashSet<Vec<u8>>, body_sexp: Rc<SExp
     }
 }
 
+// Find a name that a single destructuring pattern binds more than once.
+fn pattern_repeats_name(seen: &mut HashSet<Vec<u8>>, pattern: Rc<SExp>) -> Option<Vec<u8>> {
+    match pattern.atomize() {
+        SExp::Cons(_, a, b) => {
+            pattern_repeats_name(seen, a).or_else(|| pattern_repeats_name(seen, b))
+        }
+        SExp::Atom(_, name) => {
+            if name != b"@" && !seen.insert(name.clone()) {
+                Some(name)
+            } else {
+                None
+            }
+        }
+        _ => None,
+    }
+}
+
 fn handle_assign_form(
     opts: Rc<dyn CompilerOpts>,
     l: Srcloc,
@@ -320,6 +337,16 @@ fn handle_assign_form(
     for idx in (0..(v.len() - 1) / 2).map(|idx| idx * 2) {
         let destructure_pattern = Rc::new(v[idx].clone());
         let binding_body = compile_bodyform(opts.clone(), Rc::new(v[idx + 1].clone()))?;
+
+        // A pattern such as (X . X) binds the same name twice.
+        if let Some(repeated) =
+            pattern_repeats_name(&mut HashSet::new(), destructure_pattern.clone())
+        {
+            return Err(CompileErr(
+                destructure_pattern.loc(),
+                format!("Duplicate binding {}", decode_string(&repeated)),
+            ));
+        }
 
         // Ensure bindings aren't duplicated as we won't be able to
         // guarantee their order during toposort.
